@@ -329,6 +329,9 @@ package apd
 //@ axiom div_lt(a: int, b: int, k: int): b > 0 && a < k * b ==> div(a, b) < k
 //@ axiom div_ge(a: int, b: int, k: int): b > 0 && a >= k * b ==> div(a, b) >= k
 
+//@ axiom mul_lt(a: int, b: int, k: int): k > 0 && a < b ==> a * k < b * k
+//@ axiom mul_le(a: int, b: int, k: int): k >= 0 && a <= b ==> a * k <= b * k
+
 //@ define dsign(x: *Decimal): int = ite(x.Form == Finite && val(x.Coeff) == 0, 0, ite(x.Negative, -1, 1))
 //@ define cmpmag(Cd: int, Ed: int, Cx: int, Ex: int): int = sgn(Cd * pow10(Ed - min(Ed, Ex)) - Cx * pow10(Ex - min(Ed, Ex)))
 //@ define cmpsigned(d: *Decimal, x: *Decimal): int = ite(dsign(d) != dsign(x), sgn(dsign(d) - dsign(x)), ite(dsign(d) == 0, 0, ite(d.Form == Infinite, ite(x.Form == Infinite, 0, dsign(d)), ite(x.Form == Infinite, -dsign(d), dsign(d) * cmpmag(val(d.Coeff), d.Exponent, val(x.Coeff), x.Exponent)))))
@@ -572,3 +575,112 @@ package apd
 //@   hint pow10_add(c.Precision - 1, etiny(c) - (x.Exponent + y.Exponent))
 //@   hint div_lt(val(x.Coeff) * val(y.Coeff), pow10(etiny(c) - (x.Exponent + y.Exponent)), pow10(c.Precision - 1))
 //@   ensures [rounded] wfctx(c) && old(bothfin(x, y)) && old(-100000 <= x.Exponent && x.Exponent <= 100000 && -100000 <= y.Exponent && y.Exponent <= 100000) ==> Rounded(c, old(x.Negative != y.Negative), old(val(x.Coeff) * val(y.Coeff)), old(x.Exponent + y.Exponent), d, ret0)
+
+// ---------------------------------------------------------------- division
+
+//@ define divspecial(x: *Decimal, y: *Decimal): bool = isnan(x) || isnan(y) || x.Form == Infinite || y.Form == Infinite || iszero(y)
+
+//@ func (*Context).quoSpecials
+//@   props C01 C02 C03 C08 C10
+//@   requires writable(d) && inv(x) && inv(y)
+//@   assigns d
+//@   ensures [closed] closed(ret1)
+//@   ensures [set] ret0 <==> (old(divspecial(x, y)) || c.Precision == 0)
+//@   ensures [trap] ret2 != nil <==> (trapped(c, ret1) || (!old(divspecial(x, y)) && c.Precision == 0))
+//@   ensures [unchanged] !ret0 ==> (unchanged(d) && ret1 == 0)
+//@   ensures [nan] NaN2(x, y, d, ret1)
+//@   ensures [infinf] old(!isnan(x) && !isnan(y) && x.Form == Infinite && y.Form == Infinite) ==> (d.Form == NaN && ret1 == InvalidOperation)
+//@   ensures [infx] old(!isnan(x) && !isnan(y) && x.Form == Infinite && y.Form != Infinite) ==> (d.Form == Infinite && d.Negative == old(x.Negative != y.Negative) && ret1 == 0)
+//@   ensures [infy] old(!isnan(x) && !isnan(y) && x.Form != Infinite && y.Form == Infinite) ==> (d.Form == Finite && val(d.Coeff) == 0 && d.Negative == old(x.Negative != y.Negative) && only(ret1, Clamped) && (ctxsane(c) ==> d.Exponent == ite(canClamp, etiny(c), 0)))
+//@   ensures [zerozero] old(bothfin(x, y) && iszero(y) && iszero(x)) ==> (d.Form == NaN && ret1 == DivisionUndefined)
+//@   ensures [xzero] old(bothfin(x, y) && iszero(y) && !iszero(x)) ==> (d.Form == Infinite && d.Negative == old(x.Negative != y.Negative) && ret1 == DivisionByZero)
+
+// the scaling used to state the exact quotient: QA/QB * 10^QE == x/y with 10^(P-1) <= QA/QB < 10^P
+//@ define qdd(x: *Decimal, y: *Decimal): int = nd10(val(x.Coeff)) - nd10(val(y.Coeff))
+//@ define QA0(x: *Decimal, y: *Decimal): int = val(x.Coeff) * pow10(max(-qdd(x, y), 0))
+//@ define QB(x: *Decimal, y: *Decimal): int = val(y.Coeff) * pow10(max(qdd(x, y), 0))
+//@ define qlt(x: *Decimal, y: *Decimal): int = ite(QA0(x, y) < QB(x, y), 1, 0)
+//@ define QA1(x: *Decimal, y: *Decimal): int = ite(qlt(x, y) == 1, QA0(x, y) * 10, QA0(x, y))
+//@ define QA(c: *Context, x: *Decimal, y: *Decimal): int = QA1(x, y) * pow10(c.Precision - 1)
+//@ define QE(c: *Context, x: *Decimal, y: *Decimal): int = x.Exponent - y.Exponent + qdd(x, y) - qlt(x, y) - (c.Precision - 1)
+
+// rounding a rational N/D (D > 0) to an integer
+//@ define RNDQ(m: rounder, neg: bool, N: int, D: int): int = div(N, D) + ite(mod(N, D) != 0 && incr(m, neg, div(N, D), sgn(2 * mod(N, D) - D)), 1, 0)
+//@ define QCARRY(c: *Context, neg: bool, A: int, B: int): int = ite(RNDQ(c.Rounding, neg, A, B) == pow10(c.Precision), 1, 0)
+//@ define RQNorm(c: *Context, neg: bool, A: int, B: int, E: int, d: *Decimal, ret: cond): bool = d.Form == Finite && d.Negative == neg && val(d.Coeff) == ite(QCARRY(c, neg, A, B) == 1, pow10(c.Precision - 1), RNDQ(c.Rounding, neg, A, B)) && d.Exponent == E + QCARRY(c, neg, A, B) && (has(ret, Inexact) <==> mod(A, B) != 0) && (has(ret, Inexact) ==> has(ret, Rounded)) && only(ret, Inexact | Rounded | Clamped)
+//@ define RQSub(c: *Context, neg: bool, A: int, B: int, E: int, d: *Decimal, ret: cond): bool = d.Form == Finite && d.Negative == neg && val(d.Coeff) == RNDQ(c.Rounding, neg, A, B * pow10(etiny(c) - E)) && d.Exponent == etiny(c) && has(ret, Subnormal) && (has(ret, Inexact) <==> mod(A, B * pow10(etiny(c) - E)) != 0) && (has(ret, Underflow) <==> mod(A, B * pow10(etiny(c) - E)) != 0) && (has(ret, Inexact) ==> has(ret, Rounded)) && only(ret, Subnormal | Inexact | Underflow | Rounded | Clamped)
+// RoundedQ: the exact quotient (-1)^neg * A/B * 10^E with 10^(P-1) <= A/B < 10^P rounded once to c
+//@ define opaque RoundedQNS(c: *Context, neg: bool, A: int, B: int, E: int, d: *Decimal, ret: cond): bool = ite(E + c.Precision - 1 < c.MinExponent, RQSub(c, neg, A, B, E, d, ret), ite(E + QCARRY(c, neg, A, B) + c.Precision - 1 > c.MaxExponent, ROvf(neg, d, ret), RQNorm(c, neg, A, B, E, d, ret)))
+//@ define RoundedQ(c: *Context, neg: bool, A: int, B: int, E: int, d: *Decimal, ret: cond): bool = hassys(ret) || RoundedQNS(c, neg, A, B, E, d, ret)
+
+//@ define inrange(x: *Decimal): bool = -100000 <= x.Exponent && x.Exponent <= 100000
+
+//@ func (*Context).Quo
+//@   props C01 C02 C03 C05 C06 C07 C08 C20
+//@   exported
+//@   reveal RoundedQNS RoundedNS
+//@   requires writable(d) && inv(x) && inv(y)
+//@   assigns d
+//@   ensures [closed] closed(ret0)
+//@   ensures [trap] ret1 != nil <==> (trapped(c, ret0) || (!old(divspecial(x, y)) && c.Precision == 0))
+//@   ensures [nan] NaN2(x, y, d, ret0)
+//@   ensures [infinf] old(!isnan(x) && !isnan(y) && x.Form == Infinite && y.Form == Infinite) ==> (d.Form == NaN && ret0 == InvalidOperation)
+//@   ensures [infx] old(!isnan(x) && !isnan(y) && x.Form == Infinite && y.Form != Infinite) ==> (d.Form == Infinite && d.Negative == old(x.Negative != y.Negative) && ret0 == 0)
+//@   ensures [infy] old(!isnan(x) && !isnan(y) && x.Form != Infinite && y.Form == Infinite) ==> (d.Form == Finite && val(d.Coeff) == 0 && d.Negative == old(x.Negative != y.Negative) && only(ret0, Clamped) && (ctxsane(c) ==> d.Exponent == etiny(c)))
+//@   ensures [zerozero] old(bothfin(x, y) && iszero(y) && iszero(x)) ==> (d.Form == NaN && ret0 == DivisionUndefined)
+//@   ensures [xzero] old(bothfin(x, y) && iszero(y) && !iszero(x)) ==> (d.Form == Infinite && d.Negative == old(x.Negative != y.Negative) && ret0 == DivisionByZero)
+//@   ensures [zero] wfctx(c) && old(bothfin(x, y) && !iszero(y) && iszero(x) && inrange(x) && inrange(y)) ==> Rounded(c, old(x.Negative != y.Negative), 0, old(x.Exponent - y.Exponent), d, ret0)
+//@   hint pow10_add(nd10(val(x.Coeff)), max(-qdd(x, y), 0))
+//@   hint pow10_add(nd10(val(x.Coeff)) - 1, max(-qdd(x, y), 0))
+//@   hint pow10_add(nd10(val(y.Coeff)), max(qdd(x, y), 0))
+//@   hint pow10_add(nd10(val(y.Coeff)) - 1, max(qdd(x, y), 0))
+//@   hint mul_lt(val(x.Coeff), pow10(nd10(val(x.Coeff))), pow10(max(-qdd(x, y), 0)))
+//@   hint mul_le(pow10(nd10(val(x.Coeff)) - 1), val(x.Coeff), pow10(max(-qdd(x, y), 0)))
+//@   hint mul_lt(val(y.Coeff), pow10(nd10(val(y.Coeff))), pow10(max(qdd(x, y), 0)))
+//@   hint mul_le(pow10(nd10(val(y.Coeff)) - 1), val(y.Coeff), pow10(max(qdd(x, y), 0)))
+//@   hint val(x.Coeff) > 0 && val(y.Coeff) > 0 ==> pow10(nd10(val(x.Coeff)) + max(-qdd(x, y), 0) - 1) <= QA0(x, y) && QA0(x, y) < pow10(nd10(val(x.Coeff)) + max(-qdd(x, y), 0))
+//@   hint val(x.Coeff) > 0 && val(y.Coeff) > 0 ==> pow10(nd10(val(y.Coeff)) + max(qdd(x, y), 0) - 1) <= QB(x, y) && QB(x, y) < pow10(nd10(val(y.Coeff)) + max(qdd(x, y), 0))
+//@   hint val(x.Coeff) > 0 && val(y.Coeff) > 0 ==> QB(x, y) <= QA1(x, y) && QA1(x, y) < 10 * QB(x, y)
+//@   hint mul_le(QB(x, y), QA1(x, y), pow10(c.Precision - 1))
+//@   hint mul_lt(QA1(x, y), 10 * QB(x, y), pow10(c.Precision - 1))
+//@   hint val(x.Coeff) > 0 && val(y.Coeff) > 0 && c.Precision >= 1 ==> pow10(c.Precision - 1) * QB(x, y) <= QA(c, x, y) && QA(c, x, y) < pow10(c.Precision) * QB(x, y)
+//@   hint div_lt(QA(c, x, y), QB(x, y), pow10(c.Precision))
+//@   hint div_ge(QA(c, x, y), QB(x, y), pow10(c.Precision - 1))
+//@   hint val(x.Coeff) > 0 && val(y.Coeff) > 0 && c.Precision >= 1 ==> pow10(c.Precision - 1) <= div(QA(c, x, y), QB(x, y)) && div(QA(c, x, y), QB(x, y)) < pow10(c.Precision) && nd10(div(QA(c, x, y), QB(x, y))) == c.Precision
+//@   assert before (*BigInt).Cmp#1: [scaled0] old(inrange(x) && inrange(y)) ==> val(dividend) == old(QA0(x, y)) && val(divisor) == old(QB(x, y))
+//@   assert before tableExp10#3: [scaled1] old(inrange(x) && inrange(y)) ==> val(dividend) == old(QA1(x, y)) && val(divisor) == old(QB(x, y)) && adjCoeffs == -old(qdd(x, y)) + old(qlt(x, y))
+//@   assert before (*BigInt).QuoRem#1: [scaled] wfctx(c) && old(inrange(x) && inrange(y)) ==> val(dividend) == old(QA(c, x, y)) && val(divisor) == old(QB(x, y)) && shift - adjCoeffs - adjExp10 == old(QE(c, x, y))
+//@   ensures [qnorm] wfctx(c) && old(bothfin(x, y) && !iszero(y) && !iszero(x) && inrange(x) && inrange(y)) && old(QE(c, x, y)) + c.Precision - 1 >= c.MinExponent ==> RoundedQ(c, old(x.Negative != y.Negative), old(QA(c, x, y)), old(QB(x, y)), old(QE(c, x, y)), d, ret0)
+//@   ensures [qsub] wfctx(c) && old(bothfin(x, y) && !iszero(y) && !iszero(x) && inrange(x) && inrange(y)) && old(QE(c, x, y)) + c.Precision - 1 < c.MinExponent ==> RoundedQ(c, old(x.Negative != y.Negative), old(QA(c, x, y)), old(QB(x, y)), old(QE(c, x, y)), d, ret0)
+
+// ---------------------------------------------------------------- constructors and conversions (C17)
+
+//@ func (*Decimal).setCoefficient
+//@   props C17 C06
+//@   requires writable(d)
+//@   assigns d.Negative, d.Coeff, d.Form
+//@   ensures d.Form == Finite && d.Negative == (x < 0) && val(d.Coeff) == abs(x)
+
+//@ func (*Decimal).SetFinite
+//@   props C17 C06
+//@   requires writable(d)
+//@   assigns d
+//@   ensures d.Form == Finite && d.Negative == (x < 0) && val(d.Coeff) == abs(x) && d.Exponent == e && ret == d
+
+//@ func (*Decimal).SetInt64
+//@   props C17 C06
+//@   requires writable(d)
+//@   assigns d
+//@   ensures d.Form == Finite && d.Negative == (x < 0) && val(d.Coeff) == abs(x) && d.Exponent == 0 && ret == d
+
+//@ func New
+//@   props C17 C06
+//@   fresh
+//@   assigns nothing
+//@   ensures ret.Form == Finite && ret.Negative == (coeff < 0) && val(ret.Coeff) == abs(coeff) && ret.Exponent == exponent && ret != nil && writable(ret)
+
+//@ func NewWithBigInt
+//@   props C17 C06
+//@   fresh
+//@   assigns nothing
+//@   ensures ret.Form == Finite && ret.Negative == (old(val(coeff)) < 0) && val(ret.Coeff) == abs(old(val(coeff))) && ret.Exponent == exponent && ret != nil && writable(ret)
